@@ -20,6 +20,11 @@ well-formed operand over the registers avo defines. -/
 theorem parseOp_asm_regs (op : Op) (hwf : WF regNames op) : parseOp regNames (asm op) = some (canon op) :=
   parseOp_asm regNames regNames_ok op hwf
 
+/-- the operand list of a printed line reads back, on the current register table -/
+theorem line_roundtrip_regs (ops : List Op) (hne : ops ≠ []) (hwf : ∀ op ∈ ops, WF regNames op) :
+    (splitOps (joinOps (ops.map asm)) []).map (parseOp regNames) = ops.map (fun op => some (canon op)) :=
+  line_roundtrip regNames regNames_ok ops hne hwf
+
 /-- The format verbs of the eight integer constant types are the ones the renderer
 `immAsm` models (`$%+d` signed; `$%#0Nx` with N = 2·bytes unsigned). -/
 theorem const_verbs :
